@@ -465,6 +465,9 @@ pub struct YamlSerializer<'a, W: Write> {
     composite_key_variant_flow: bool,
     /// Whether the last serialized value was a block collection (map or sequence).
     last_value_was_block: bool,
+    /// The last scalar written was a block scalar with keep chomping (`|+` / `>+`): every
+    /// empty line that follows it would become part of its content.
+    after_kept_breaks: bool,
     /// If a sequence element starts with a dash on this depth, capture that depth so
     /// struct-variant mappings emitted immediately after can indent their fields correctly.
     after_dash_depth: Option<usize>,
@@ -510,6 +513,7 @@ impl<'a, W: Write> YamlSerializer<'a, W> {
             inline_map_after_dash: false,
             composite_key_variant_flow: false,
             last_value_was_block: false,
+            after_kept_breaks: false,
             after_dash_depth: None,
             current_map_depth: None,
             quote_all: false,
@@ -574,6 +578,7 @@ impl<'a, W: Write> YamlSerializer<'a, W> {
     /// comment (if any) and then emits a newline. In flow style, comments are suppressed.
     #[inline]
     fn write_end_of_scalar(&mut self) -> Result<()> {
+        self.after_kept_breaks = false;
         if self.in_flow == 0 {
             if let Some(c) = self.pending_inline_comment.take() {
                 self.out.write_str(" # ")?;
@@ -1159,6 +1164,9 @@ impl<'a, 'b, W: Write> Serializer for &'a mut YamlSerializer<'b, W> {
                     self.write_folded_block(v, body_base)?;
                 }
             }
+            // An explicit FoldStr is always written with clip chomping (see above).
+            self.after_kept_breaks = v.ends_with("\n\n")
+                && (matches!(style, StrStyle::Literal) || self.pending_str_from_auto);
             // reset auto flag after using pending style
             self.pending_str_from_auto = false;
             return Ok(());
@@ -1302,8 +1310,9 @@ impl<'a, 'b, W: Write> Serializer for &'a mut YamlSerializer<'b, W> {
             NAME_SPACE_AFTER => {
                 // Serialize the value, then emit an empty line after (only in block style).
                 let result = value.serialize(&mut *self);
-                if self.in_flow == 0 {
-                    // Emit an extra blank line after the value
+                // Emit an extra blank line after the value, unless it would extend a block
+                // scalar that keeps its trailing line breaks.
+                if self.in_flow == 0 && !self.after_kept_breaks {
                     self.newline()?;
                 }
                 return result;
